@@ -20,11 +20,23 @@ def fresh():
 
 
 def run_check(prop, seed):
-    env = dict(os.environ, VERIF_REPO=WT, VERIF_SEED=str(seed), VERIF_EVIDENCE_DIR="/tmp/verif_mut_evidence", VERIF_REPLAY_DIR="/tmp/verif_mut_replays")
+    env = dict(os.environ, VERIF_REPO=WT, VERIF_SEED=str(seed), VERIF_EVIDENCE_DIR=WT + "_evidence", VERIF_REPLAY_DIR=WT + "_replays")
     t0 = time.time()
     r = subprocess.run(["/venv/bin/python", os.path.join(ROOT, "run.py"), prop, "--tier", "quick"], capture_output=True, text=True, env=env, cwd=ROOT)
     vio = [l for l in r.stdout.splitlines() if l.startswith("VIOLATION") or l.startswith("  finding")]
     return r.returncode, vio[:3], time.time() - t0, r.stderr[-400:] if r.returncode == 2 else ""
+
+
+def save(resfile, name, entry):
+    """read-modify-write under a lock so that several self-test processes can share results.json"""
+    import fcntl
+    with open(resfile + ".lock", "w") as lk:
+        fcntl.flock(lk, fcntl.LOCK_EX)
+        cur = json.load(open(resfile)) if os.path.exists(resfile) else {}
+        cur[name] = entry
+        tmp = resfile + ".tmp%d" % os.getpid()
+        json.dump(cur, open(tmp, "w"), indent=1)
+        os.replace(tmp, resfile)
 
 
 def main():
@@ -35,6 +47,8 @@ def main():
     ap.add_argument("--seeded", action="store_true")
     ap.add_argument("--seed", type=int, default=1)
     ap.add_argument("--missing", action="store_true", help="skip items that already have a result")
+    ap.add_argument("--shard", default="0/1", help="i/n: take every n-th item starting at i")
+    ap.add_argument("--no-also", action="store_true", help="run only the seeded change's own property")
     a = ap.parse_args()
     resfile = os.path.join(ROOT, "mutants", "results.json")
     results = json.load(open(resfile)) if os.path.exists(resfile) else {}
@@ -50,7 +64,21 @@ def main():
         from mutants.mutants import M
         for (name, prop, f, old, new) in M:
             items.append((name, prop, f, old, new, []))
+    si, sn = [int(x) for x in a.shard.split("/")]
+    todo = []
+    for it in items:
+        name, prop = it[0], it[1]
+        if a.only and prop != a.only:
+            continue
+        if a.name and a.name not in name:
+            continue
+        if a.missing and name in results and "runs" in results[name]:
+            continue
+        todo.append(it)
+    items = todo[si::sn]
     for (name, prop, f, old, new, also) in items:
+        if a.no_also:
+            also = []
         if a.only and prop != a.only:
             continue
         if a.name and a.name not in name:
@@ -62,14 +90,14 @@ def main():
             r = sh("git -C %s apply %s" % (WT, f))
             if r.returncode:
                 print(name, "PATCH DOES NOT APPLY", r.stderr[:200])
-                results[name] = dict(property=prop, status="patch does not apply")
+                save(resfile, name, dict(property=prop, status="patch does not apply"))
                 continue
         else:
             p = os.path.join(WT, f)
             s = open(p).read()
             if old not in s:
                 print(name, "ANCHOR NOT FOUND")
-                results[name] = dict(property=prop, status="anchor not found")
+                save(resfile, name, dict(property=prop, status="anchor not found"))
                 continue
             open(p, "w").write(s.replace(old, new, 1))
         out = {}
@@ -77,8 +105,7 @@ def main():
             rc, vio, dt, err = run_check(pr, a.seed)
             out[pr] = dict(rc=rc, first=vio[:2], wall_s=round(dt, 1), err=err)
             print("%-34s %s rc=%d %.0fs %s" % (name, pr, rc, dt, (vio[0][:150] if vio else err[-150:])))
-        results[name] = dict(property=prop, caught=out[prop]["rc"] == 1, runs=out, seed=a.seed)
-        json.dump(results, open(resfile, "w"), indent=1)
+        save(resfile, name, dict(property=prop, caught=out[prop]["rc"] == 1, runs=out, seed=a.seed))
     sh("git -C /repo worktree remove --force %s" % WT)
     shutil.rmtree(WT, ignore_errors=True)
 
